@@ -116,12 +116,15 @@ def body_global(cube, **kw):
         nodes[i].is_necessary = nec[i]
     parents = [[] for _ in range(n)]
     children = [[] for _ in range(n)]
+    dbl = bool(cube.get('dbl', False))
     for i in range(n):
         for j in range(n):
             if kw['e%d%d' % (i, j)]:
                 link(nodes[i], nodes[j])
                 parents[j].append(i)
                 children[i].append(j)
+                if dbl:
+                    link(nodes[i], nodes[j])     # the same child listed twice by one step
     reached = [False] * n
     for i in range(n):
         if kw['ra%d' % i]:
@@ -222,11 +225,11 @@ def queries(tier):
         w = {p.name: True for p in ps}
         w.update({e: False for e in ebits}); w.update({'e01': True, 'nw0': False, 'ra1': False})
         return Query(name=name, body=body_global, params=ps,
-                     cubes=[{'n': n, 'types': list(ts), 'rb': rb} for ts in tvecs for rb in rbs],
+                     cubes=[{'n': n, 'types': list(ts), 'rb': rb, 'dbl': d} for ts in tvecs for rb in rbs for d in (False, True)],
                      pre=['%s <= %d' % (' + '.join(ebits), maxe)] if maxe is not None else [],
                      timeout=timeout, split=list(split),
-                     witnesses=[({'n': n, 'types': list(tvecs[-1]), 'rb': rbs[-1]}, w)],
-                     bound='%d nodes, type vectors %s, symbolic viability/necessity flags, every edge set%s incl. self-loops, '
+                     witnesses=[({'n': n, 'types': list(tvecs[-1]), 'rb': rbs[-1], 'dbl': True}, w)],
+                     bound='%d nodes, type vectors %s, symbolic viability/necessity flags, every edge set%s incl. self-loops, single and doubled (parallel) edges, '
                            'every reached set of attacker a, second attacker reached %s, every set of newly compromised nodes'
                            % (n, [list(t) for t in tvecs], '' if maxe is None else ' with <= %d edges' % maxe, rbs))
     P = itertools.product
